@@ -20,7 +20,7 @@ package main
 // adds or reorders a table/lock/FileSys action or an SFid field access changes this
 // file and breaks that proof obligation until the model has been re-transcribed.
 // Statement kinds that do not occur in these functions today (for, switch, select,
-// go, goto, labels) are an error, not a guess.
+// go, goto, labels) are not guessed at: they become an UNRECOGNISED token, which breaks the equality.
 
 import (
 	"fmt"
@@ -53,10 +53,12 @@ type skel struct {
 
 func (s *skel) emit(t string) { s.toks = append(s.toks, t) }
 
+// An unrecognised shape is loud but local: it becomes a token that cannot be in the transcribed
+// skeleton, so C14's proof obligation breaks (and names the place) while the generated files of the
+// other properties are still written.  Only a function that has vanished is a translator error.
 func (s *skel) fail(n ast.Node, what string) {
-	if s.err == nil {
-		s.err = fmt.Errorf("%s: %s", s.c.Fset.Position(n.Pos()), what)
-	}
+	pos := s.c.Fset.Position(n.Pos())
+	s.emit(fmt.Sprintf("UNRECOGNISED@line%d: %s", pos.Line, what))
 }
 
 func exprName(e ast.Expr) string {
